@@ -57,7 +57,11 @@ impl<C: PixelColor> Iterator for StyledPixelsIterator<C> {
     fn next(&mut self) -> Option<Self::Item> {
         loop {
             if let Some(p) = self.current_line.next() {
-                return Some(Pixel(p, self.current_color?));
+                // Lines without a color, e.g. the stroke if no stroke color is set, are skipped
+                // instead of ending the iteration.
+                if let Some(color) = self.current_color {
+                    return Some(Pixel(p, color));
+                }
             } else {
                 let (next_line, next_type) = self.lines_iter.next()?;
 
